@@ -24,6 +24,7 @@ DOC = {
  "C14.R5": "= C13.R7 + shrink: a finishing draining worker is not given work; shrink marks working workers draining and removes idle ones from both maps",
  "C14.R6": "idle events pull: completion (not draining), replacement and growth are followed on their path by try_route_next_active_job and the availability callback",
  "C14.R8": "= C13.R5: submission order per key on one worker needs a bounced job to return to the queue *front* and a replacement to re-drive the queue head",
+ "C14.R9": "= C13.R6: the ActorTerminated and ActorFailed arms agree (replacement inserted, queue re-driven, availability announced)",
  "C14.R7": "round-robin: the cursor advances on every non-hinted choice and wraps at pool_size; pool_size == 0 returns None first",
 }
 
@@ -300,6 +301,13 @@ def r8(run, db):
     c13.r5(run, db)
 
 
+def r9(run, db):
+    """= C13.R6: both supervision arms (ActorTerminated / ActorFailed) re-drive the queue and announce the replacement to the
+    router; a replacement the router does not know stays idle while jobs wait in the factory queue"""
+    from . import c13
+    c13.r6(run, db)
+
+
 Q = ["dflt"]
 TH = ["dflt", "rc", "atr", "astd"]
-RULES = [{"id": "C14.R%d" % i, "fn": f, "quick": Q, "thorough": TH} for i, f in enumerate([r1, r2, r3, r4, r5, r6, r7, r8], 1)]
+RULES = [{"id": "C14.R%d" % i, "fn": f, "quick": Q, "thorough": TH} for i, f in enumerate([r1, r2, r3, r4, r5, r6, r7, r8, r9], 1)]
